@@ -113,6 +113,7 @@ func (p *Plugin) getCommitReportsOutcome(observation exectypes.Observation) exec
 	for _, chain := range chains {
 		commitReports = append(commitReports, observation.CommitReports[chain]...)
 	}
+	commitReports = dropConflictingReports(commitReports)
 	sort.SliceStable(commitReports, func(i, j int) bool {
 		return commitReports[i].Timestamp.Before(commitReports[j].Timestamp)
 	})
@@ -120,6 +121,31 @@ func (p *Plugin) getCommitReportsOutcome(observation exectypes.Observation) exec
 	// Must use 'NewOutcome' rather than direct struct initialization to ensure the outcome is sorted.
 	// TODO: sort in the encoder.
 	return exectypes.NewOutcome(exectypes.GetCommitReports, commitReports, cciptypes.ExecutePluginReport{})
+}
+
+// dropConflictingReports removes every agreed commit report that conflicts with another agreed report of the same
+// source chain: the same merkle root or an overlapping sequence number range. The off-ramp holds one report per root
+// and range, so two of them reaching the threshold means the observers disagree about it (e.g. on its executed
+// messages: a lagging reader seconded by a faulty one). Neither version can be preferred, and keeping both makes
+// every later observation of the cycle fail (computeRanges and validateObservedSequenceNumbers reject overlapping
+// ranges). They are ignored for this cycle without blocking the other reports; the next GetCommitReports round reads
+// the destination again. Whether a report is dropped does not depend on the order of the list.
+func dropConflictingReports(reports []exectypes.CommitData) []exectypes.CommitData {
+	var kept []exectypes.CommitData
+	for i, a := range reports {
+		conflict := false
+		for j, b := range reports {
+			if i != j && a.SourceChain == b.SourceChain &&
+				(a.MerkleRoot == b.MerkleRoot || a.SequenceNumberRange.Overlaps(b.SequenceNumberRange)) {
+				conflict = true
+				break
+			}
+		}
+		if !conflict {
+			kept = append(kept, a)
+		}
+	}
+	return kept
 }
 
 func (p *Plugin) getMessagesOutcome(
